@@ -65,6 +65,11 @@ fn power_loss_in_scope(f: FsyncPolicy) -> bool {
 }
 
 pub fn run(args: &Args) -> Out {
+    if args.get("leg") == Some("server-periodic") {
+        let mut out = Out::new("C01", "server-periodic");
+        crate::c01s::run(args, &mut out);
+        return out;
+    }
     let mut out = Out::new("C01", "crash-points");
     if !shim_loaded() {
         out.note("fsshim not preloaded: leg cannot observe file-system effects");
